@@ -9,7 +9,8 @@ ids = [json.loads(l)["id"] for l in open(os.path.join(V, "properties.jsonl"))]
 checks, na = [], []
 for pid in ids:
     c = claims.get(pid)
-    if not c or not c.get("claimed"):
+    ready = set(open(os.path.join(V, "claimed.txt")).read().split())
+    if not c or not c.get("claimed") or pid not in ready:
         na.append(dict(property_id=pid, reason=(c or {}).get("reason", "check not built yet in this session; planned in DESIGN.md section 4")))
         continue
     checks.append(dict(
